@@ -577,9 +577,11 @@ class LintJsonStream(Stream):
         return {"files": {k: (v if isinstance(v, str) else repr(v)) for k, v in files.items()}, "file": fpath, "same": case["same"]}
 
 
+import c04s12     # noqa: E402  (needs the helpers above)
+
 PROPERTY = Property(
     pid="C04",
-    streams=[TreeStream(), Dep5Stream(), ProjectStream(), LintJsonStream()],
+    streams=[TreeStream(), Dep5Stream(), ProjectStream(), LintJsonStream()] + c04s12.STREAMS,
     assumptions=[
         "glob matching of the [[annotations]] tables is a parameter of the model (decided by C05); the generator knows which tables match",
         "what reading the file's own source yields (tag extraction, binary detection, parse-error drop) is the generator's ground truth here and the subject of C02",
